@@ -14,13 +14,15 @@ def before (a b : String) (l : List String) : Bool :=
   | [] => false
   | _ :: rest => rest.contains b
 
-/-- lockFreshnessInterval, the staleness factor (×2), fileLockPollInterval, the 250 ms
-retry and the 8 tolerated empty reads are the model's `codeParams`; the staleness test is
-strict (`>`) and uses Updated, or Created when Updated is zero — `stale` of the model -/
+/-- lockFreshnessInterval, fileLockPollInterval, the 250 ms retry and the 8 tolerated empty reads are the
+model's `codeParams`. (The staleness factor, the strictness of the test and its reference stamp were facts
+about `fileLockIsStale`; that function is tied whole now — CM/Tie/FnC08.lean, C08_tie_fn_fileLockIsStale, with
+`factor * H` = 10 s inside it — and the function tie stays proved under rewrites, e.g. a local constant for the
+threshold, that changed the extracted facts.) -/
 theorem C08_tie_constants :
-    CM.Gen.C08.lockFreshnessInterval = codeParams.H ∧ CM.Gen.C08.staleFactor = codeParams.factor ∧
+    CM.Gen.C08.lockFreshnessInterval = codeParams.H ∧
     CM.Gen.C08.fileLockPollInterval = codeParams.P ∧ CM.Gen.C08.emptyRetry = codeParams.E ∧
-    CM.Gen.C08.maxEmpty = codeParams.N ∧ CM.Gen.C08.staleStrict = true ∧ CM.Gen.C08.staleRefRule = true := by
+    CM.Gen.C08.maxEmpty = codeParams.N := by
   decide
 
 /-- `Lock` waits in exactly two `select`s (the 250 ms retry and the poll), and each has a
